@@ -100,7 +100,27 @@ pub fn observe(ctx: &Ctx, st: &mut Stats, job: &Job) {
 
     if job.fam == FAMS[1] {
         let margin = job.aux[0] as usize;
-        let svg = match adapter::guarded(|| SvgBuilder::default().margin(margin).shape(Shape::Command(spy)).to_str(&qr)) {
+        // one callback layer, a built-in layer + a callback layer, or two callback layers (every layer's callback must
+        // be handed the real modules)
+        let layers = job.seed % 3;
+        let svg = match adapter::guarded(|| {
+            let mut b = SvgBuilder::default();
+            b.margin(margin);
+            match layers {
+                0 => {
+                    b.shape(Shape::Command(spy));
+                }
+                1 => {
+                    b.shape(Shape::Square);
+                    b.shape(Shape::Command(spy));
+                }
+                _ => {
+                    b.shape(Shape::Command(spy));
+                    b.shape_color(Shape::Command(spy), [9u8, 9, 9]);
+                }
+            }
+            b.to_str(&qr)
+        }) {
             Ok(s) => s,
             Err(p) => {
                 flag(st, ID, ("callback-panic".into(), p), job, false);
@@ -143,7 +163,8 @@ pub fn observe(ctx: &Ctx, st: &mut Stats, job: &Job) {
             }
             seen += 1;
         }
-        let dark = qr.data[..n * n].iter().filter(|m| m.value()).count() as u64;
+        let dark = qr.data[..n * n].iter().filter(|m| m.value()).count() as u64 * if layers == 2 { 2 } else { 1 };
+        st.reach("callback_layer_arrangements", layers);
         if seen == 0 && dark > 0 {
             // the observation channel is broken (nothing the spy wrote came back): not a verdict on the labels
             st.inconclusive(format!("callback spy: none of the {dark} dark modules came back through the path data; labels handed to callbacks cannot be observed"));
